@@ -585,11 +585,25 @@ func c02HandlerErrOnWire(c *core.Ctx) {
 				fromErr = call
 			}
 		}
+		// … or by a helper of the package that is handed the handler's error and converts it
+		var guardAt ssa.Instruction = fromErr
+		if fromErr == nil {
+			for _, h := range core.HelperCallsOf(hc.Fn) {
+				for _, call := range core.CallsIn(h.Callee, func(_ *ssa.Call, ci core.CallInfo) bool {
+					return ci.Is(statusPkg+".FromError") || ci.Is(statusPkg+".Convert")
+				}) {
+					if derivesFromHandlerErrBound(call.Call.Args[0], hcalls, h.Bind) {
+						fromErr = call
+						guardAt = h.Call
+					}
+				}
+			}
+		}
 		if fromErr == nil {
 			c.Fail(key+":status-from-error", hc.Fn.Pos(), "the handler's error is not converted with status.FromError")
 			continue
 		}
-		g := core.GuardedBy(fromErr, func(f core.Fact) bool { return f.Op == token.NEQ && core.IsNilConst(f.Y) && isErrResultOf(f.X, hcalls) })
+		g := core.GuardedBy(guardAt, func(f core.Fact) bool { return f.Op == token.NEQ && core.IsNilConst(f.Y) && isErrResultOf(f.X, hcalls) })
 		c.Check(g, key+":on-error-edge", fromErr.Pos(), "conversion on the handlerErr != nil edge", "status conversion is not on the handler-error != nil edge")
 		// OK → Internal rewrite (sibling rule)
 		var stUse ssa.Value
@@ -652,6 +666,20 @@ func derivesFromHandlerErr(v ssa.Value, hcalls []*ssa.Call) bool {
 		// through a translator call
 		if call, _, ok := core.CallResult(o); ok && len(call.Call.Args) == 1 && core.IsErrorType(call.Call.Args[0].Type()) {
 			return derivesFromHandlerErr(call.Call.Args[0], hcalls)
+		}
+		return false
+	})
+}
+
+// derivesFromHandlerErrBound: like derivesFromHandlerErr for a value inside a
+// helper, whose parameters stand for the arguments of the call (bind).
+func derivesFromHandlerErrBound(v ssa.Value, hcalls []*ssa.Call, bind map[ssa.Value]ssa.Value) bool {
+	return core.OriginIs(v, func(o ssa.Value) bool {
+		if a, ok := bind[o]; ok {
+			return derivesFromHandlerErr(a, hcalls)
+		}
+		if call, _, ok := core.CallResult(o); ok && len(call.Call.Args) == 1 && core.IsErrorType(call.Call.Args[0].Type()) {
+			return derivesFromHandlerErrBound(call.Call.Args[0], hcalls, bind)
 		}
 		return false
 	})
